@@ -30,6 +30,8 @@ pub enum Mode {
     Gated,
     /// worker threads run through (used while the store is dropped)
     Free,
+    /// like `Free`, but every intercepted call of a worker first sleeps a little
+    Slow,
     /// every intercepted call of a worker fails with EIO without being
     /// executed or recorded (used to get rid of an instance after a "crash")
     Kill,
@@ -223,6 +225,13 @@ fn park(kind: &str, buf: Option<&[u8]>, file: Option<u64>) -> Outcome {
     match st.mode {
         Mode::Kill => return Outcome::Eio,
         Mode::Free => return Outcome::Ok,
+        Mode::Slow => {
+            drop(st);
+            if kind == "sync" {
+                std::thread::sleep(Duration::from_micros(400));
+            }
+            return Outcome::Ok;
+        }
         Mode::Gated => {}
     }
     if st.wk[i].generation != st.generation {
@@ -245,7 +254,7 @@ fn park(kind: &str, buf: Option<&[u8]>, file: Option<u64>) -> Outcome {
                 st.wk[i].state = WState::Running;
                 return Outcome::Eio;
             }
-            Mode::Free => {
+            Mode::Free | Mode::Slow => {
                 st.wk[i].state = WState::Running;
                 return Outcome::Ok;
             }
